@@ -21,6 +21,8 @@ RULE = (
     "skeletons with valid Tetrahedral / SquarePlanar / TBP / Octahedral "
     "decorations incl. 3-coordinate lone-pair centres; (organic) molecules "
     "from the RDKit generator imported and renamed in the model; (ez) "
+    "the organic source half of the time with regenerated bond orders and "
+    "with a pool of stereogenic P(V) / S(VI) / S(IV) / N-oxide centres; "
     "organic molecules with isolated C=C, C=N and N=N bonds (lone-pair "
     "placeholders in every position of the PlanarBond spelling) exported "
     "with generate_bond_orders=True. Oracle: back = from_rdmol(g._to_rdmol(...), "
@@ -32,7 +34,9 @@ RULE = (
     "unspecified parity as a descriptor of the same class over the same "
     "atoms; with regenerated bond orders the "
     "PlanarBond of every isolated double bond reappears equivalent; the "
-    "exported graph's snapshot is unchanged. Non-trivial: >= 1 specified "
+    "exported graph's snapshot is unchanged. Every case is exported a second "
+    "time through g.subgraph(all atoms in another order), which shares the "
+    "descriptor objects with g, under the same oracle. Non-trivial: >= 1 specified "
     "atom-centred descriptor and ids != 0..n-1; distinct = SHA-1."
 )
 ASSUMPTIONS = [
@@ -146,12 +150,22 @@ def gen(data: bytes):
             c = c if c in ("C", "CC", "C(C)C") else "C"
             a3 = a if a in ("C", "F", "Cl", "Br", "CC", "I") else "C"
             smi = f"{c}{sl}N=C(/{a3}){b}"
+    elif tp.chance(50):
+        # stereogenic P(V) / S(VI) / S(IV) centres
+        x, y, z = tp.shuffle(["C", "F", "Cl", "CC", "OC", "N(C)C", "[H]"])[:3]
+        at = tp.pick(["@", "@@"])
+        smi = tp.pick([f"O=[P{at}]({x})({y}){z}", f"S=[P{at}]({x})({y}){z}",
+                       f"O=[S{at}](=N)({x}){y}", f"O=[S{at}]({x}){y}",
+                       f"C[S{at}](=O)(=NC){x}", f"[O-][N{at}+]({x})({y})C"])
+        if "[H]" in smi and "S" in smi:
+            smi = smi.replace("[H]", "C")
     else:
         smi = rdgen.organic_smiles(tp, max_heavy=8) or "C[C@H](F)Cl"
     mol = rdgen.mol_from_smiles(smi)
     n = mol.GetNumAtoms() if mol is not None else 1
     return {"src": "organic" if k == 2 else "ez", "smiles": smi,
-            "ids": _pos_ids(tp, n), "bond_orders": k == 3,
+            "ids": _pos_ids(tp, n),
+            "bond_orders": k == 3 or (k == 2 and tp.chance(128)),
             "tseed": tp.below(1 << 30)}
 
 
@@ -220,13 +234,31 @@ def check_case(ctx, case):
     if sg is None:
         return None
     g, m = sg
-    s0 = snapshot(g, "C13/source")
     bo = bool(case.get("bond_orders"))
+    res = _check_graph(ctx, case, g, m, bo)
+    # the same through a subgraph over all atoms in another order: it shares
+    # the descriptor objects with g and lists the ligands differently
+    tp = S.seed_tape(case.get("tseed", 0) + 17)
+    order = tp.shuffle(list(m.atoms))
+    with guard("C13/subgraph-of-everything"):
+        sub = g.subgraph(order)
+    m2 = Model(m.cls)
+    for a in order:
+        m2.atoms[a] = dict(m.atoms[a])
+    m2.bonds = dict(m.bonds)
+    m2.atom_stereo = dict(m.atom_stereo)
+    m2.bond_stereo = dict(m.bond_stereo)
+    _check_graph(ctx, case, sub, m2, bo, stage="second-export/")
+    return res
+
+
+def _check_graph(ctx, case, g, m, bo, stage=""):
+    s0 = snapshot(g, "C13/source")
     kinds = sorted({d[0] for d in m.atom_stereo.values()})
     feat = "+".join(k[:4] for k in kinds) or "none"
     if any(None in d[1] for d in m.atom_stereo.values()):
         feat += "+lonepair"
-    with guard(f"C13/export/bond_orders={int(bo)}"):
+    with guard(f"C13/{stage}export/bond_orders={int(bo)}"):
         rd, _ = g._to_rdmol(generate_bond_orders=bo)
     d = snap_diff(snapshot(g, "C13/source"), s0, "exact")
     if d:
@@ -277,7 +309,7 @@ def check_case(ctx, case):
                 continue
             if got is None:
                 raise Violation(
-                    f"C13/descriptor-lost/{dsc[0]}/{lone}",
+                    f"C13/{stage}descriptor-lost/{dsc[0]}/{lone}",
                     f"atom {c}: {dsc} not present after the round trip")
             if got[0] != dsc[0] or got[2] is None or \
                     not sym.equivalent(got, dsc):
@@ -286,7 +318,7 @@ def check_case(ctx, case):
                        and sym.equivalent(got, sym.invert(dsc))
                        else "other")
                 raise Violation(
-                    f"C13/descriptor-changed/{dsc[0]}/{lone}/{rel}",
+                    f"C13/{stage}descriptor-changed/{dsc[0]}/{lone}/{rel}",
                     f"atom {c}: exported {dsc}, re-imported {got}")
         if bo:
             for b, dsc in m.bond_stereo.items():
